@@ -821,6 +821,10 @@ def code_objects_of(*objs):
                     visit(v, o.__name__)
         elif type(o).__name__ == "SingletonDecorator":
             visit(o.klass, modname)
+        else:
+            w = getattr(o, "__wrapped__", None)      # e.g. a functools.lru_cache wrapper around a factory function
+            if isinstance(w, types.FunctionType):
+                visit(w, modname)
 
     for o in objs:
         visit(o, getattr(o, "__name__", None) if not isinstance(o, type) else o.__module__)
